@@ -114,6 +114,17 @@ class SecSim:
             return f.key_swapped(spec["role"], spec.get("i", 0) % len(p.ticket_bytes))
         if k == "edited":
             return self._edited(spec)
+        if k == "crafted":
+            return f.crafted(spec["role"], spec.get("i", 0) % len(p.ticket_bytes), spec.get("alg", sc.SIG_ALGS[0]), spec.get("r_form", "compressed-y-0"),
+                             spec.get("rs", "random"), spec.get("key_form", "uncompressedP256"), tag=spec.get("tag", 0),
+                             own_tbs=spec.get("own_tbs", False))
+        if k == "empty-app":
+            # hand-built ticket under the genuine AA whose appPermissions is present but empty, or absent altogether
+            absent = spec.get("absent", False)
+            sk = f.key("empty-app", absent, spec.get("tag", 0))
+            tbs = sc.make_tbs(None, p.now + spec.get("start_off", -3600), tuple(spec.get("dur", ("years", 1))), app_psids=None if absent else [])
+            b = sc.build_cert(tbs, p.aa_key, p.aa_bytes, subject_key=sk)
+            return sc.Forged("no-app-at" if absent else "empty-app-at", b, "at", sk, p.aa_bytes, True)
         if k == "mutated":
             base = self.resolve(spec["base"])
             return sc.Forged("mutated:" + spec["m"], sc.mutate(base.cert, spec["m"], spec.get("a", 0), spec.get("v", 0)),
@@ -126,8 +137,10 @@ class SecSim:
         d, _ = sc.as_cert(p.bytes_of(role, i))
         tbs = d["toBeSigned"]
         if fld == "psid":
-            if "appPermissions" in tbs:
+            if tbs.get("appPermissions"):
                 path, val = ["toBeSigned", "appPermissions", 0, "psid"], 1000 + v
+            elif "appPermissions" in tbs:          # present but empty: the edit grants a PSID
+                path, val = ["toBeSigned", "appPermissions"], [{"psid": 1000 + v}]
             else:
                 path = ["toBeSigned", "certIssuePermissions", 0, "subjectPermissions"]
                 val = ("all", None) if tbs["certIssuePermissions"][0]["subjectPermissions"][0] != "all" else ("explicit", [{"psid": 1000 + v}])
@@ -152,6 +165,19 @@ class SecSim:
                 path, val = ["signature", 1, "rSig"], (sig["rSig"][0], bytes(b))
         elif fld == "version":
             path, val = ["version"], 2 if v % 2 else 4
+        elif fld == "sig-form":
+            # same r, s octets, r spelled in another point form (compressed-y-* / uncompressed keep the x coordinate: still the
+            # issuer's signature by the x-coordinate reading of IEEE 1609.2; fill drops r)
+            path, val = ["signature"], sc.reencode_signature(d["signature"], r_form=sc.R_FORMS[1 + v % 4])
+        elif fld == "sig-alg":
+            path, val = ["signature"], sc.reencode_signature(d["signature"], alg=sc.SIG_ALGS[1 + v % 4])
+        elif fld == "key-form":
+            # the same public key in compressed form: toBeSigned changes, the issuer's signature no longer covers it
+            vk = sc.verifying_key_of(d)
+            if vk is None:
+                path, val = ["toBeSigned", "id"], ("name", "edited-%d" % v)
+            else:
+                path, val = ["toBeSigned", "verifyKeyIndicator"], ("verificationKey", sc.public_key_value_form(vk, "compressed"))
         elif fld == "min-chain":
             if "certIssuePermissions" not in tbs:
                 path, val = ["toBeSigned", "id"], ("name", "edited-%d" % v)
